@@ -124,7 +124,7 @@ def _parse_model(line: str):
     if outcome.startswith("ERR:") and counts:
         msgs = msgs[: counts[int(outcome.rsplit("@", 1)[1])]]
     st = dict(kv.split("=") for kv in state.split()) if state else {}
-    pk = {"c-dataend-cr": "c-dataend", "c-trail0": "c-trailers"}.get(st.get("pk"), st.get("pk"))
+    pk = {"c-dataend-cr": "c-dataend"}.get(st.get("pk"), st.get("pk"))
     if eofs.startswith("EOFOK:") and eofs != "EOFOK:~":
         eofs = {"partial": _parse_msg(eofs[len("EOFOK:"):].split(":"))}
     return {"outcome": outcome, "msgs": msgs,
@@ -318,7 +318,7 @@ def gen_lax_stream(rng):
 
 
 DIRECTED = [
-    # the optional CR after chunk data / after the last-chunk line, in every combination
+    # the optional CR after chunk data, CRs after the last-chunk line (not skipped since eb945bb), in every combination
     *[b"HTTP/1.1 200 OK\r\nTransfer-Encoding: chunked\r\n\r\n" + b for b in (
         b"3\r\nabc\r\r\n0\r\n\r\n", b"3\r\nabc\r\n0\r\r\n\r\n", b"3\r\r\nabc\r\n0\r\n\r\n", b"3\r\nabc\r\n0\r\n\r\r\n",
         b"3\nabc\n0\n\n", b"3\r\nabc\r\n0\r\nX: y\r\r\n\r\n", b"3\r\nabc\r\n0\r\n\rX: y\r\n\r\n", b"3\r\nabc\r\n0\r\n\r\rX: y\r\n\r\n",
